@@ -27,7 +27,9 @@ def register_command(subparsers):
 def extract_archive(archive_file: pathlib.Path, staging_path: pathlib.Path):
     try:
         process = subprocess.Popen(
-            ["tar", "xzf", str(archive_file), "-C", str(staging_path)],
+            # N.B. tar treats a relative name such as `host:file` as an archive
+            # on a remote machine; an absolute path is always local.
+            ["tar", "xzf", str(archive_file.absolute()), "-C", str(staging_path)],
             shell=False,
         )
         process.wait()
